@@ -1,5 +1,248 @@
-//! C19 — not built yet.
-#![allow(unused)]
+//! C19 — resampling (bootstrap, jackknife, shuffle, shuffle_two) and the `alea` generator behind it
+//! (DiscreteUniform sampling; every `alea` function the crate calls: u64, f64, the integer range samplers).
+//! `gen`: the implementation is run after `alea::set_seed(seed)`; the Coq side runs the executable wyrand/Lemire
+//! model of `Base/Rng.v` from the same seed and must reproduce outputs AND the final generator state bit for bit.
+//! `oracle`: the property statement as executable checks of the implementation only (no model).
 use crate::util::*;
-pub fn gen(_tier: &str, _seed: u64, _outdir: &str) { eprintln!("C19: gen not implemented"); std::process::exit(3); }
-pub fn oracle(_tier: &str, _seed: u64) -> (u64, Vec<Finding>) { eprintln!("C19: oracle not implemented"); std::process::exit(3); }
+use compute::distributions::{DiscreteUniform, Distribution, Distribution1D};
+use compute::validation::{bootstrap, jackknife, shuffle, shuffle_two};
+
+const SPECIALS: [f64; 10] = [0.0, -0.0, f64::INFINITY, f64::NEG_INFINITY, f64::NAN, 5e-324, -5e-324, 2.2250738585072014e-308, f64::MAX, f64::MIN_POSITIVE / 2.0];
+
+/// data vectors: distinct, repeated, special values
+fn data(r: &mut Rng, n: usize, kind: u64) -> Vec<f64> {
+    match kind % 4 {
+        0 => (0..n).map(|i| i as f64 + 0.5).collect(),                        // distinct
+        1 => (0..n).map(|_| r.small_int(2)).collect(),                         // heavy repeats
+        2 => (0..n).map(|_| if r.coin(0.4) { *r.pick(&SPECIALS) } else { r.uniform(-10.0, 10.0) }).collect(),
+        _ => (0..n).map(|_| r.uniform(-1e6, 1e6)).collect(),
+    }
+}
+
+/// nested output -> flat list: count, then every row as (len, elements...)
+fn flat(rows: &[Vec<f64>]) -> Vec<f64> {
+    let mut v = vec![rows.len() as f64];
+    for row in rows { v.push(row.len() as f64); v.extend_from_slice(row); }
+    v
+}
+
+fn seeded<R>(seed: u64, f: impl FnOnce() -> R) -> (Result<R, String>, u64) {
+    alea::set_seed(seed);
+    let res = catch(f);
+    (res, alea::get_seed())
+}
+
+fn a_seed(r: &mut Rng, i: u64) -> u64 {
+    match i % 7 { 0 => 0, 1 => 1, 2 => u64::MAX, 3 => r.below(1000), _ => r.next() }
+}
+
+pub fn gen(tier: &str, seed: u64, outdir: &str) {
+    let thorough = tier == "thorough";
+    let mut r = Rng::new(seed ^ 0xC19);
+    let mut cs = Cases::new("C19");
+    let k = if thorough { 12 } else { 1 };
+
+    // 1. raw generator: u64() and f64() streams
+    for i in 0..(40 * k) {
+        let sd = a_seed(&mut r, i);
+        let n = 1 + r.below(40) as usize;
+        alea::set_seed(sd);
+        let us: Vec<u64> = (0..n).map(|_| alea::u64()).collect();
+        let st = alea::get_seed();
+        cs.push(app("CU64", vec![Tm::N(sd), Tm::L(us.iter().map(|u| Tm::N(*u)).collect()), Tm::N(st)]), "alea/u64", true);
+        alea::set_seed(sd);
+        let fs: Vec<f64> = (0..n).map(|_| alea::f64()).collect();
+        let st = alea::get_seed();
+        cs.push(app("CF64", vec![Tm::N(sd), fl(&fs), Tm::N(st)]), "alea/f64", true);
+    }
+
+    // 2. alea's range samplers called directly (incl. the max > min assertion and retrying moduli)
+    for i in 0..(120 * k) {
+        let sd = a_seed(&mut r, i);
+        let n = 1 + r.below(12) as usize;
+        // u64_less_than: small moduli, powers of two, moduli above 2^63 (retry probability up to 1/2), 0 and 1
+        let m: u64 = match i % 8 { 0 => r.below(3), 1 => 1 + r.below(2000), 2 => 1u64 << r.below(64), 3 => (1u64 << 63) + r.below(1u64 << 62), 4 => u64::MAX - r.below(5), 5 => (1u64 << 63) + 1 + r.below(1000), 6 => r.next(), _ => (r.next() >> r.below(64)).max(1) };
+        alea::set_seed(sd);
+        let before = alea::get_seed();
+        let us: Vec<u64> = (0..n).map(|_| alea::u64_less_than(m)).collect();
+        let st = alea::get_seed();
+        let retried = st.wrapping_sub(before) != 0xa0761d6478bd642fu64.wrapping_mul(n as u64);
+        cs.push(app("CLess", vec![Tm::N(sd), Tm::N(m), Tm::L(us.iter().map(|u| Tm::N(*u)).collect()), Tm::N(st)]),
+                if retried { "alea/u64_less_than/retry" } else { "alea/u64_less_than" }, true);
+        // i64_in_range / u64_in_range with valid and degenerate / reversed bounds (wrapping arithmetic, release build)
+        let (lo, hi): (i64, i64) = match i % 6 { 0 => { let a = r.range(-50, 50); (a, a) } 1 => { let a = r.range(-50, 50); (a, a - 1 - r.below(4) as i64) }
+            2 => { let a = r.range(-1000, 1000); (a, a + 1 + r.below(3000) as i64) } 3 => (i64::MIN / 2 - r.below(1 << 60) as i64, i64::MAX / 2 + r.below(1 << 60) as i64),
+            4 => (r.next() as i64 >> 1, i64::MAX - r.below(3) as i64), _ => { let a = r.next() as i64; let b = r.next() as i64; (a.min(b), a.max(b)) } };
+        let (res, st) = seeded(sd, || (0..n).map(|_| alea::i64_in_range(lo, hi)).collect::<Vec<i64>>());
+        let e = match &res { Ok(v) => app("Val", vec![Tm::L(v.iter().map(|z| Tm::Z(*z)).collect())]), Err(_) => Tm::Raw("Panic".into()) };
+        cs.push(app("CIRange", vec![Tm::N(sd), Tm::Z(lo), Tm::Z(hi), Tm::Nat(n as u64), e, Tm::N(st)]), if res.is_ok() { "alea/i64_in_range" } else { "alea/i64_in_range/panic" }, true);
+        let (ulo, uhi) = (lo as u64 ^ (1 << 63), hi as u64 ^ (1 << 63));
+        let (res, st) = seeded(sd, || (0..n).map(|_| alea::u64_in_range(ulo, uhi)).collect::<Vec<u64>>());
+        let e = match &res { Ok(v) => app("Val", vec![Tm::L(v.iter().map(|z| Tm::N(*z)).collect())]), Err(_) => Tm::Raw("Panic".into()) };
+        cs.push(app("CURange", vec![Tm::N(sd), Tm::N(ulo), Tm::N(uhi), Tm::Nat(n as u64), e, Tm::N(st)]), if res.is_ok() { "alea/u64_in_range" } else { "alea/u64_in_range/panic" }, true);
+    }
+
+    // 3. DiscreteUniform::new(lo, hi).sample_n(n): valid, degenerate (D11), reversed (constructor panics), huge spans
+    for i in 0..(150 * k) {
+        let sd = a_seed(&mut r, i);
+        let n = 1 + r.below(16) as usize;
+        let (lo, hi): (i64, i64) = match i % 7 { 0 => { let a = r.range(-50, 50); (a, a) } 1 => { let a = r.range(-50, 50); (a, a - 1 - r.below(4) as i64) }
+            2 => (0, r.below(2000) as i64), 3 => { let a = r.range(-1000, 1000); (a, a + r.below(3000) as i64) }
+            4 => (i64::MIN / 2 - r.below(1 << 60) as i64, i64::MAX / 2 + r.below(1 << 60) as i64),
+            5 => (-(1i64 << 52) - r.below(1 << 20) as i64, (1i64 << 52) + r.below(1 << 20) as i64), _ => (i64::MIN + r.below(3) as i64, i64::MAX - r.below(3) as i64) };   // incl. the full range: span wraps to 0, always `lower`
+        alea::set_seed(sd);
+        let before = alea::get_seed();
+        let (res, st) = seeded(sd, || DiscreteUniform::new(lo, hi).sample_n(n).to_vec());
+        let retried = res.is_ok() && st.wrapping_sub(before) != 0xa0761d6478bd642fu64.wrapping_mul(n as u64);
+        let tag = if res.is_err() { "du/panic" } else if lo == hi { "du/degenerate" } else if retried { "du/retry" } else { "du/valid" };
+        cs.push(app("CDU", vec![Tm::N(sd), Tm::Z(lo), Tm::Z(hi), Tm::Nat(n as u64), outcome_list(&res), Tm::N(st)]), tag, true);
+    }
+
+    // 4. resampling: every length 0..=maxl (all residues), then larger lengths up to 2000
+    let maxl = if thorough { 64 } else { 24 };
+    let mut lens: Vec<usize> = (0..=maxl).collect();
+    for _ in 0..(6 * k) { lens.push(40 + r.below(260) as usize); }
+    lens.push(2000); if thorough { lens.push(1999); lens.push(1024); }
+    // spread the heavy lengths over the shards (shard text stays below ~1.5 MB)
+    for i in (1..lens.len()).rev() { let j = r.below(i as u64 + 1) as usize; lens.swap(i, j); }
+    let reps = if thorough { 4 } else { 2 };
+    for (li, &n) in lens.iter().enumerate() {
+        for rep in 0..reps {
+            if n > 300 && rep > 0 { continue; }
+            let sd = a_seed(&mut r, (li * reps + rep) as u64);
+            let kind = r.below(4);
+            let d = data(&mut r, n, kind);
+            // at most ~4000 output values per case: 200 resamples only for short data, 1-2 for 2000 elements
+            let cap = (4000 / n.max(1)).clamp(1, 200);
+            let nb = if n > 300 { cap } else if n > 40 { 1 + r.below(cap.min(4) as u64) as usize } else if rep == 0 { r.below(4) as usize } else { 1 + r.below(if thorough { cap as u64 } else { 30 }) as usize };
+            let nt = n >= 2;
+            let (res, st) = seeded(sd, || flat(&bootstrap(&d, nb)));
+            cs.push(app("CBoot", vec![Tm::N(sd), fl(&d), Tm::Nat(nb as u64), outcome_list(&res), Tm::N(st)]), &format!("bootstrap/{}", if res.is_ok() { if n == 1 { "len1" } else { "ok" } } else { "panic" }), nt);
+            if n <= 64 || (n <= 100 && rep == 0) {   // output is n(n-1) values: larger n only in the oracle
+                let res = catch(|| flat(&jackknife(&d)));
+                cs.push(app("CJack", vec![fl(&d), outcome_list(&res)]), "jackknife", nt);
+            }
+            let (res, st) = seeded(sd, || shuffle(&d));
+            cs.push(app("CShuf", vec![Tm::N(sd), fl(&d), outcome_list(&res), Tm::N(st)]), &format!("shuffle/{}", if res.is_ok() { if n == 1 { "len1" } else { "ok" } } else { "panic" }), nt);
+            let kind2 = r.below(4);
+            let d2 = data(&mut r, n, kind2);
+            let (res, st) = seeded(sd, || { let (a, b) = shuffle_two(&d, &d2); let mut v = a; v.extend_from_slice(&b); v });
+            cs.push(app("CShuf2", vec![Tm::N(sd), fl(&d), fl(&d2), outcome_list(&res), Tm::N(st)]), &format!("shuffle_two/{}", if res.is_ok() { if n == 1 { "len1" } else { "ok" } } else { "panic" }), nt);
+        }
+    }
+    // 5. malformed stream: shuffle_two with different lengths
+    for i in 0..(30 * k) {
+        let sd = a_seed(&mut r, i);
+        let (n1, n2) = (r.below(8) as usize, r.below(8) as usize);
+        let (d1, d2) = (data(&mut r, n1, i), data(&mut r, n2, i + 1));
+        let (res, st) = seeded(sd, || { let (a, b) = shuffle_two(&d1, &d2); let mut v = a; v.extend_from_slice(&b); v });
+        cs.push(app("CShuf2", vec![Tm::N(sd), fl(&d1), fl(&d2), outcome_list(&res), Tm::N(st)]), if res.is_ok() { "malformed-stream/value" } else { "malformed-stream/panic" }, res.is_err());
+    }
+    cs.write(outdir, if thorough { 32 } else { 30 }, "a case is non-trivial when the data length is >= 2, or the case exercises the generator directly (range sampler, Lemire retry, assertion)");
+}
+
+// ------------------------------------------------------------------------------------------------
+// failure-search oracle: the property statement on the implementation
+
+fn bits(v: &[f64]) -> Vec<u64> { v.iter().map(|x| if x.is_nan() { 0x7ff8_0000_0000_0000 } else { x.to_bits() }).collect() }
+fn sorted(mut v: Vec<u64>) -> Vec<u64> { v.sort_unstable(); v }
+fn len_class(n: usize) -> &'static str { if n == 1 { "len=1" } else { "len>=2" } }
+
+/// upper quantile of chi-square with `df` degrees of freedom at normal deviate z (Wilson-Hilferty), made generous
+fn chi2_crit(df: f64, z: f64) -> f64 { let a = 2.0 / (9.0 * df); df * (1.0 - a + z * a.sqrt()).powi(3) * 1.05 + 5.0 }
+
+pub fn oracle(tier: &str, seed: u64) -> (u64, Vec<Finding>) {
+    let thorough = tier == "thorough";
+    let mut r = Rng::new(seed ^ 0x0C19);
+    let mut out: Vec<Finding> = vec![]; let mut tried = 0u64;
+    let nseeds = if thorough { 10000 } else { 100 };
+    let mut lens: Vec<usize> = (1..=12).collect();
+    lens.extend_from_slice(&[16, 17, 31, 64, 100, 257]);
+    if thorough { lens.extend_from_slice(&[500, 1000, 2000]); } else { lens.push(2000); }
+    for s in 0..nseeds {
+        // every seed: the small lengths in rotation; the large ones on a few seeds only
+        let todo: Vec<usize> = if s < 3 { lens.clone() } else { vec![lens[s % 12], lens[(s * 7 + 3) % lens.len().min(17)]] };
+        for &n in &todo {
+            if n > 300 && s >= 3 { continue; }
+            let sd = if s % 2 == 0 { r.next() } else { s as u64 };
+            let kind = r.below(4);
+            let d = data(&mut r, n, kind);
+            let nb = if n > 300 { 2 } else { 1 + r.below(if s % 10 == 0 { 200 } else { 8 }) as usize };
+            let input = format!("seed={} data={} n_bootstrap={}", sd, json_floats(&d), nb);
+            let input = if input.len() > 1200 { format!("seed={} data=[{} values, kind {}] n_bootstrap={}", sd, n, kind, nb) } else { input };
+            let dbits = bits(&d);
+            // bootstrap: count, lengths, membership
+            tried += 1;
+            crumb(&format!("bootstrap {}", input));
+            match seeded(sd, || bootstrap(&d, nb)).0 {
+                Err(e) => out.push(Finding { class: format!("bootstrap:panics {}", len_class(n)), what: format!("bootstrap panicked on a length-{} vector: {}", n, e), input: input.clone() }),
+                Ok(rs) => {
+                    if rs.len() != nb { out.push(Finding { class: "bootstrap:wrong-count".into(), what: format!("{} resamples returned, {} requested", rs.len(), nb), input: input.clone() }); }
+                    for row in &rs {
+                        if row.len() != n { out.push(Finding { class: "bootstrap:wrong-length".into(), what: format!("resample of length {} from data of length {}", row.len(), n), input: input.clone() }); break; }
+                        if bits(row).iter().any(|b| !dbits.contains(b)) { out.push(Finding { class: "bootstrap:invented-element".into(), what: "a resample contains a value that is not in the data".into(), input: input.clone() }); break; }
+                    }
+                }
+            }
+            // jackknife = the n leave-one-out vectors in order
+            tried += 1;
+            crumb(&format!("jackknife {}", input));
+            match catch(|| jackknife(&d)) {
+                Err(e) => out.push(Finding { class: format!("jackknife:panics {}", len_class(n)), what: format!("jackknife panicked: {}", e), input: input.clone() }),
+                Ok(js) => {
+                    let want: Vec<Vec<u64>> = (0..n).map(|i| (0..n).filter(|j| *j != i).map(|j| dbits[j]).collect()).collect();
+                    let got: Vec<Vec<u64>> = js.iter().map(|v| bits(v)).collect();
+                    if got != want { out.push(Finding { class: "jackknife:not-leave-one-out".into(), what: "jackknife did not return the n leave-one-out vectors in order".into(), input: input.clone() }); }
+                }
+            }
+            // shuffle: same multiset
+            tried += 1;
+            crumb(&format!("shuffle {}", input));
+            match seeded(sd, || shuffle(&d)).0 {
+                Err(e) => out.push(Finding { class: format!("shuffle:panics {}", len_class(n)), what: format!("shuffle panicked on a length-{} vector: {}", n, e), input: input.clone() }),
+                Ok(v) => if sorted(bits(&v)) != sorted(dbits.clone()) { out.push(Finding { class: "shuffle:not-a-permutation".into(), what: "shuffle changed the multiset of values".into(), input: input.clone() }); }
+            }
+            // shuffle_two: one common permutation (first array distinct, so the permutation is recoverable)
+            tried += 1;
+            let a: Vec<f64> = (0..n).map(|i| i as f64).collect();
+            crumb(&format!("shuffle_two arr1=[0,1,..,{}] arr2=data {}", n as i64 - 1, input));
+            match seeded(sd, || shuffle_two(&a, &d)).0 {
+                Err(e) => out.push(Finding { class: format!("shuffle_two:panics {}", len_class(n)), what: format!("shuffle_two panicked on length-{} vectors: {}", n, e), input: input.clone() }),
+                Ok((pa, pb)) => {
+                    let mut seen = vec![false; n];
+                    let mut ok = pa.len() == n && pb.len() == n;
+                    if ok { for j in 0..n { let i = pa[j] as usize; if pa[j] != i as f64 || i >= n || seen[i] { ok = false; break; } seen[i] = true; if bits(&[pb[j]]) != bits(&[d[i]]) { ok = false; break; } } }
+                    if !ok { out.push(Finding { class: "shuffle_two:unpaired".into(), what: "shuffle_two did not apply one common permutation to both arrays".into(), input: input.clone() }); }
+                }
+            }
+        }
+        // DiscreteUniform sampling: support, integrality, degenerate interval
+        let lo = r.range(-100, 100); let hi = lo + if s % 3 == 0 { 0 } else { r.below(50) as i64 };
+        tried += 1;
+        let sd = r.next();
+        crumb(&format!("DiscreteUniform::new(lower, upper).sample_n(20) seed={} lower={} upper={}", sd, lo, hi));
+        match seeded(sd, || DiscreteUniform::new(lo, hi).sample_n(20).to_vec()).0 {
+            Err(e) => out.push(Finding { class: format!("discreteuniform:sample-panics {}", if lo == hi { "lower=upper" } else { "lower<upper" }), what: format!("DiscreteUniform::new({}, {}).sample() panicked: {}", lo, hi, e), input: format!("seed={} lower={} upper={}", sd, lo, hi) }),
+            Ok(v) => if v.iter().any(|x| *x < lo as f64 || *x > hi as f64 || x.fract() != 0.0) { out.push(Finding { class: "discreteuniform:sample-out-of-support".into(), what: format!("sample outside {}..={}: {:?}", lo, hi, v), input: format!("seed={} lower={} upper={}", sd, lo, hi) }); }
+        }
+    }
+    // every position equally likely: chi-square of positional frequencies at alpha = 1e-12 (z = 7.03; 7.5 used)
+    let rounds = if thorough { 40 } else { 8 };
+    for t in 0..rounds {
+        let n = [2usize, 3, 5, 7, 10, 16, 33, 100][t % 8];
+        let nb = 200; let reps = (20000 / (n * nb)).max(1) * 10;
+        let d: Vec<f64> = (0..n).map(|i| i as f64).collect();
+        let sd = r.next();
+        alea::set_seed(sd);
+        tried += 1;
+        crumb(&format!("bootstrap positional frequencies seed={} n={} n_bootstrap={} repetitions={}", sd, n, nb, reps));
+        let res = catch(|| { let mut c = vec![0u64; n]; let mut tot = 0u64; for _ in 0..reps { for row in bootstrap(&d, nb) { for x in row { c[x as usize] += 1; tot += 1; } } } (c, tot) });
+        if let Ok((c, tot)) = res {
+            let e = tot as f64 / n as f64;
+            let chi: f64 = c.iter().map(|o| (*o as f64 - e) * (*o as f64 - e) / e).sum();
+            if chi > chi2_crit((n - 1) as f64, 7.5) { out.push(Finding { class: "bootstrap:positions-not-uniform".into(), what: format!("chi-square {} over {} draws of {} positions exceeds the 1e-12 critical value", chi, tot, n), input: format!("seed={} n={} n_bootstrap={} repetitions={}", sd, n, nb, reps) }); }
+        }
+        // shuffle: every element lands on every position about equally often (2n random transpositions; coarse)
+    }
+    (tried, out)
+}
